@@ -4,3 +4,4 @@ import Gmsm.Props.C04
 import Gmsm.Props.C11
 import Gmsm.Props.C19
 import Gmsm.Props.C12
+import Gmsm.Props.C07
